@@ -26,13 +26,15 @@ VARIABLES l,      \* index of the next trace line to consume
           live,   \* "ok" | "failed" (the real call reported an error) | "lost" (after a disagreement)
           bad,    \* set of <<line, reason>> the specification rejects
           nchk,   \* number of events whose result was actually compared
-          nundef  \* number of events outside the modelled domain (no verdict)
-vars == <<l, docs, par, live, bad, nchk, nundef>>
+          nundef, \* number of events outside the modelled domain (no verdict)
+          shas    \* [format -> digest] of the output calls since the last state change
+vars == <<l, docs, par, live, bad, nchk, nundef, shas>>
 
 Ev == Trace[l]
 IsEvent(n) == l <= Len(Trace) /\ Trace[l].ev = n
 Advance == l' = l + 1
 Keep == UNCHANGED <<docs, par, live>>
+ShaOf(e) == IF "sha" \in DOMAIN e THEN e.sha ELSE ""
 
 (* record a verdict: "" agrees, "undef" no verdict, anything else rejects *)
 Verdict(j) ==
@@ -55,21 +57,22 @@ EnvOf(e) == IF "env" \in DOMAIN e THEN e.env ELSE <<>>
 CodecOf(e) == IF "codec" \in DOMAIN e THEN e.codec ELSE <<>>
 
 TInit == /\ l = 2 /\ docs = <<>> /\ par = <<>> /\ live = "ok" /\ bad = {} /\ nchk = 0 /\ nundef = 0
+         /\ shas = <<>>
 
 (* a new Parser *)
 TReset ==
   /\ IsEvent("Reset") /\ Advance
-  /\ docs' = <<>> /\ par' = <<>> /\ live' = "ok"
+  /\ docs' = <<>> /\ par' = <<>> /\ live' = "ok" /\ shas' = <<>>
   /\ UNCHANGED <<bad, nchk, nundef>>
 
 (* events of a session that already failed or was lost are skipped *)
 TSkip ==
   /\ l <= Len(Trace) /\ Ev.ev \in {"MergeDocument", "Documents", "Output"}
   /\ live # "ok" /\ Advance
-  /\ UNCHANGED <<docs, par, live, bad, nchk, nundef>>
+  /\ UNCHANGED <<docs, par, live, bad, nchk, nundef, shas>>
 
 TMergeDocument ==
-  /\ IsEvent("MergeDocument") /\ live = "ok" /\ Advance
+  /\ IsEvent("MergeDocument") /\ live = "ok" /\ Advance /\ shas' = <<>>
   /\ LET e == Ev
          r == MergeDocumentOp(docs, par, e.patch)
          j == IF r.ok /\ ~e.ok THEN "spec accepts, code rejected"
@@ -83,7 +86,7 @@ TMergeDocument ==
 
 (* Documents(): must be exactly the merged, unevaluated state *)
 TDocuments ==
-  /\ IsEvent("Documents") /\ live = "ok" /\ Advance
+  /\ IsEvent("Documents") /\ live = "ok" /\ Advance /\ UNCHANGED shas
   /\ LET j == IF Ev.docs # docs THEN "Documents() differs from the merged state" ELSE "" IN
      /\ Verdict(j)
      /\ IF j # "" THEN live' = "lost" /\ UNCHANGED <<docs, par>> ELSE Keep
@@ -92,11 +95,18 @@ TDocuments ==
 (* state itself must not change (C19)                                      *)
 TOutput ==
   /\ IsEvent("Output") /\ live = "ok" /\ Advance /\ Keep
-  /\ Verdict(JudgeEval(EvalAllC(docs, EnvOf(Ev), CodecOf(Ev)), Ev))
+  /\ LET e == Ev
+         j == JudgeEval(EvalAllC(docs, EnvOf(e), CodecOf(e)), e)
+         f == IF "format" \in DOMAIN e THEN e.format ELSE ""
+         stale == e.ok /\ ShaOf(e) # "" /\ f \in DOMAIN shas /\ shas[f] # ShaOf(e)
+     IN /\ Verdict(IF j = "" /\ stale THEN "two output calls on the same state returned different bytes" ELSE j)
+        /\ shas' = IF e.ok /\ ShaOf(e) # "" /\ f \notin DOMAIN shas
+                   THEN [x \in (DOMAIN shas) \cup {f} |-> IF x = f THEN ShaOf(e) ELSE shas[x]]
+                   ELSE shas
 
 (* stateless evaluation of a document stream *)
 TEval ==
-  /\ IsEvent("Eval") /\ Advance /\ Keep
+  /\ IsEvent("Eval") /\ Advance /\ Keep /\ UNCHANGED shas
   /\ Verdict(JudgeEval(EvalAllC(Ev.docs, EnvOf(Ev), CodecOf(Ev)), Ev))
 
 TDone ==
@@ -105,7 +115,7 @@ TDone ==
         [l |-> l + 1, nchk |-> nchk, undef |-> nundef,
          bad |-> LET q == SetToSeq(bad) IN [i \in DOMAIN q |-> [line |-> q[i][1], why |-> q[i][2]]]])
   /\ l' = l + 1
-  /\ UNCHANGED <<docs, par, live, bad, nchk, nundef>>
+  /\ UNCHANGED <<docs, par, live, bad, nchk, nundef, shas>>
 
 TNext == TReset \/ TSkip \/ TMergeDocument \/ TDocuments \/ TOutput \/ TEval \/ TDone
 TSpec == TInit /\ [][TNext]_vars
